@@ -617,7 +617,7 @@ def check_C16(c):
     runs = {}
     for ev in c.by["xp-enter-call"]:
         runs[ev[2]] = {"xp": ev[5]["xp"], "entered": None, "ended": None, "completed": False, "submitted": set(),
-                       "linked": set(), "order": ev[0]}
+                       "linked": set(), "order": ev[0], "mode": ev[5].get("mode", "normal")}
     for ev in c.by["xp-entered"]:
         runs[ev[2]]["entered"] = ev[0]
         runs[ev[2]]["order"] = ev[0]     # runs are ordered by when they obtained the experiment
@@ -647,13 +647,15 @@ def check_C16(c):
     # submitted has gone through the link step (from then on the new index is
     # authoritative and the backup may go); a run killed before that is aborted
     for pid, r in runs.items():
+        if r["mode"] != "normal":
+            continue        # dry-run / generate-only runs schedule nothing: they neither complete a plan nor index jobs
         if pid in block_end and pid not in raised and r["submitted"] <= r["linked"]:
             r["completed"] = max([block_end[pid]] + [ev[0] for ev in c.by["state"]
                                                      if ev[2] == pid and ev[5]["new"] == "WAITING"])
     # exclusivity
     byxp = defaultdict(list)
     for pid, r in runs.items():
-        if r["entered"] is not None:
+        if r["entered"] is not None and r["mode"] != "dry":      # (a dry run does not take the experiment lock)
             byxp[r["xp"]].append((r["entered"], r["ended"] if r["ended"] is not None else 10 ** 12, pid))
     for xp, ivs in byxp.items():
         ivs.sort()
